@@ -9,6 +9,8 @@ package metric
 // only in version / schema URL / attributes) and "#k" (created with the NAME of instrument k of another meter).
 // cancelat j: the contexts of the next cycle's two collections are cancelled WHILE instrument j is being aggregated
 // (a hook exemplar reservoir installed through the instrument's view — public API — cancels from its Collect).
+// by <pos> <kinds> (first op): the provider has a third reader at position pos whose AggregationSelector drops the
+// instrument kinds in <kinds> (c u h g C U G); it is collected in every cycle, its data are discarded.
 // cberr: every callback that runs in the next cycle returns an error AFTER making its observations (the SDK joins such
 // errors and returns them together with the collected data; header "<cycle>:<D|C>:e" = Collect returned an error).
 // gen tags ending in "+fresh" collect into a fresh ResourceMetrics each time; all others reuse ONE ResourceMetrics
@@ -16,6 +18,8 @@ package metric
 // insts: comma list of <i|f><kind><agg><cb>[n]; kind c,u,h,g (sync) C,U,G (observable); agg - s l e x d; cb 0|1;
 // optional 5th char n = the view's explicit / exponential histogram aggregation has NoMinMax.
 // histogram and exponential-histogram streams carry a 5th field: per point "<min>~<max>" or "-" (Min/Max absent).
+// exponential-histogram streams carry a 6th field: per point "<scale>@<neg offset>@<neg counts>@<pos offset>@<pos counts>"
+// (counts dot-separated, possibly empty): the full bucket vectors, judged by Spec.expoBucketsTwin after rescaling.
 // slots: comma list of digit strings (instrument indexes of one RegisterCallback), "-" = none.
 // record: "<cycle>:<D|C>;<stream>;…", stream = "<j>:<type>:<start>.<time>.<p>.<f>.<le>.<uni>:<points>".
 // Time stamps are never printed: start/time are classified by the window (creation `c`, collection `w<k>` of the
@@ -158,6 +162,7 @@ type c08Pt struct {
 	s           string
 	start, time time.Time
 	mm          string // histograms: "<min>~<max>", "-" when both are absent, "?" when only one is
+	xb          string // exponential histograms: "<scale>@<neg offset>@<neg counts>@<pos offset>@<pos counts>"
 }
 
 func c08MM[N int64 | float64](mn, mx metricdata.Extrema[N]) string {
@@ -198,23 +203,24 @@ func c08Points[N int64 | float64](d metricdata.Aggregation) (string, []c08Pt, bo
 	switch x := d.(type) {
 	case metricdata.Sum[N]:
 		for _, p := range x.DataPoints {
-			pts = append(pts, c08Pt{c08SetID(p.Attributes), c08Num(p.Value), p.StartTime, p.Time, ""})
+			pts = append(pts, c08Pt{c08SetID(p.Attributes), c08Num(p.Value), p.StartTime, p.Time, "", ""})
 		}
 		return "S" + c08Temp(x.Temporality) + map[bool]string{true: "m", false: "n"}[x.IsMonotonic], pts, true
 	case metricdata.Gauge[N]:
 		for _, p := range x.DataPoints {
-			pts = append(pts, c08Pt{c08SetID(p.Attributes), c08Num(p.Value), p.StartTime, p.Time, ""})
+			pts = append(pts, c08Pt{c08SetID(p.Attributes), c08Num(p.Value), p.StartTime, p.Time, "", ""})
 		}
 		return "G", pts, true
 	case metricdata.Histogram[N]:
 		for _, p := range x.DataPoints {
-			pts = append(pts, c08Pt{c08SetID(p.Attributes), fmt.Sprintf("%d/%s/%s", p.Count, c08Num(p.Sum), c08U(p.BucketCounts)), p.StartTime, p.Time, c08MM(p.Min, p.Max)})
+			pts = append(pts, c08Pt{c08SetID(p.Attributes), fmt.Sprintf("%d/%s/%s", p.Count, c08Num(p.Sum), c08U(p.BucketCounts)), p.StartTime, p.Time, c08MM(p.Min, p.Max), ""})
 		}
 		return "H" + c08Temp(x.Temporality), pts, true
 	case metricdata.ExponentialHistogram[N]:
 		for _, p := range x.DataPoints {
 			pts = append(pts, c08Pt{c08SetID(p.Attributes), fmt.Sprintf("%d/%s/%d.%d.%d", p.Count, c08Num(p.Sum),
-				c08Tot(p.NegativeBucket.Counts), p.ZeroCount, c08Tot(p.PositiveBucket.Counts)), p.StartTime, p.Time, c08MM(p.Min, p.Max)})
+				c08Tot(p.NegativeBucket.Counts), p.ZeroCount, c08Tot(p.PositiveBucket.Counts)), p.StartTime, p.Time, c08MM(p.Min, p.Max),
+				fmt.Sprintf("%d@%d@%s@%d@%s", p.Scale, p.NegativeBucket.Offset, c08U(p.NegativeBucket.Counts), p.PositiveBucket.Offset, c08U(p.PositiveBucket.Counts))})
 		}
 		return "X" + c08Temp(x.Temporality), pts, true
 	}
@@ -293,7 +299,46 @@ func TestVerifC08Twin(t *testing.T) {
 				hooks[j] = hooks[ic.name]
 			}
 		}
-		mp := NewMeterProvider(WithReader(rd.r), WithReader(rc.r), WithView(views...))
+		// `by <pos> <kinds>`: a third ("bystander") reader at position pos among the provider's readers whose
+		// AggregationSelector answers AggregationDrop for the instrument kinds in <kinds>; it is collected in every cycle
+		// and its data are discarded. What its selector drops must not change what the twin readers report.
+		var rb *ManualReader
+		ropts := []Option{WithReader(rd.r), WithReader(rc.r)}
+		for _, op := range ops {
+			if op[0] == "by" && len(op) == 3 && rb == nil {
+				dropped := map[InstrumentKind]bool{}
+				for _, ch := range op[2] {
+					switch ch {
+					case 'c':
+						dropped[InstrumentKindCounter] = true
+					case 'u':
+						dropped[InstrumentKindUpDownCounter] = true
+					case 'h':
+						dropped[InstrumentKindHistogram] = true
+					case 'g':
+						dropped[InstrumentKindGauge] = true
+					case 'C':
+						dropped[InstrumentKindObservableCounter] = true
+					case 'U':
+						dropped[InstrumentKindObservableUpDownCounter] = true
+					case 'G':
+						dropped[InstrumentKindObservableGauge] = true
+					}
+				}
+				rb = NewManualReader(WithAggregationSelector(func(k InstrumentKind) Aggregation {
+					if dropped[k] {
+						return AggregationDrop{}
+					}
+					return DefaultAggregationSelector(k)
+				}))
+				pos, _ := strconv.Atoi(op[1])
+				if pos < 0 || pos > 2 {
+					pos = 2
+				}
+				ropts = append(ropts[:pos], append([]Option{WithReader(rb)}, ropts[pos:]...)...)
+			}
+		}
+		mp := NewMeterProvider(append(ropts, WithView(views...))...)
 		defer mp.Shutdown(ctx)
 		// all meters share the scope NAME; they differ only in version / schema URL / scope attributes
 		meters := []metric.Meter{
@@ -506,17 +551,22 @@ func TestVerifC08Twin(t *testing.T) {
 					}
 					sort.SliceStable(pts, func(a, b int) bool { return pts[a].a < pts[b].a })
 					uni := "1"
-					var ps, mms []string
+					var ps, mms, xbs []string
 					for _, p := range pts {
 						if !p.start.Equal(pts[0].start) || !p.time.Equal(pts[0].time) {
 							uni = "0"
 						}
 						ps = append(ps, fmt.Sprintf("%d=%s", p.a, p.s))
 						mms = append(mms, p.mm)
+						xbs = append(xbs, p.xb)
 					}
 					mmField := ""
 					if ty[0] == 'H' || ty[0] == 'X' {
 						mmField = ":" + strings.Join(mms, ",")
+					}
+					if ty[0] == 'X' {
+						// full bucket vectors of every exponential-histogram point (6th field)
+						mmField += ":" + strings.Join(xbs, ",")
 					}
 					st, tm := pts[0].start, pts[0].time
 					p, f := "-", "-"
@@ -637,6 +687,10 @@ func TestVerifC08Twin(t *testing.T) {
 				for _, rdr := range []*c08Reader{rd, rc} {
 					res := doCollect(rdr, &c08Cycle{obs: cur, fail: failNext}, nextRM(rdr), cancelAt)
 					records = append(records, emit(rdr, cycle, res))
+				}
+				if rb != nil {
+					var brm metricdata.ResourceMetrics
+					_ = rb.Collect(context.WithValue(ctx, c08CycleKey{}, &c08Cycle{obs: cur}), &brm)
 				}
 				cur = nil
 				failNext = false
@@ -892,6 +946,14 @@ func TestVerifC08Twin(t *testing.T) {
 			}
 		}
 		ops = append(ops, []string{"col"})
+		if r.Intn(6) == 0 {
+			// a bystander reader dropping 1-3 instrument kinds (mostly observable ones), before / between / after the twins
+			kinds := ""
+			for c := 1 + r.Intn(3); c > 0; c-- {
+				kinds += string("CUGCUGcuhg"[r.Intn(10)])
+			}
+			ops = append([][]string{{"by", strconv.Itoa(r.Intn(3)), kinds}}, ops...)
+		}
 		run(gen, insts, slots, istr, sstr, ops)
 	}
 	for i := 0; i < n; i++ {
